@@ -37,10 +37,19 @@ def _curves(r, sis):
     return r[1:3] if sis else r[1:4]
 
 
-def _call_graph(EoN, name, G, tau, gamma, rho, tmax, tcount, tmin=0):
+NODELIST_ENTRIES = ('SIS_pair_based', 'SIR_pair_based', 'SIS_individual_based', 'SIR_individual_based')
+
+
+def _call_graph(EoN, name, G, tau, gamma, rho, tmax, tcount, tmin=0, nodelist_perm=None):
     """entry point on G with uniform rho; homogeneous mean-field SIR has a direct-call fallback
-    (its from_graph wrapper is a recorded finding)"""
-    return O.call(getattr(EoN, name), G, tau, gamma, rho=rho, tmin=tmin, tmax=tmax, tcount=tcount)
+    (its from_graph wrapper is a recorded finding).  The node-level models take an optional nodelist: with
+    nodelist_perm = k it is passed explicitly, in an order that differs from G.nodes() (rotated by k and reversed) --
+    the aggregated curves must not depend on it."""
+    kw = {}
+    if nodelist_perm and name in NODELIST_ENTRIES:
+        nodes = list(G.nodes()); k = nodelist_perm % max(1, len(nodes))
+        kw['nodelist'] = list(reversed(nodes[k:] + nodes[:k]))
+    return O.call(getattr(EoN, name), G, tau, gamma, rho=rho, tmin=tmin, tmax=tmax, tcount=tcount, **kw)
 
 
 def case_equiv(EoN, p):
@@ -59,7 +68,7 @@ def case_equiv(EoN, p):
             args = ((1 - p['rho']) * N, p['rho'] * N, n, p['tau'], p['gamma']) if sis else ((1 - p['rho']) * N, p['rho'] * N, 0, n, p['tau'], p['gamma'])
             st, r = O.call(f, *args, tmin=p.get('tmin', 0), tmax=p['tmax'], tcount=p['tcount'])
         else:
-            st, r = _call_graph(EoN, name, H, p['tau'], p['gamma'], p['rho'], p['tmax'], p['tcount'], p.get('tmin', 0))
+            st, r = _call_graph(EoN, name, H, p['tau'], p['gamma'], p['rho'], p['tmax'], p['tcount'], p.get('tmin', 0), p.get('nodelist_perm'))
         if st != 'ok':
             return 'CRASH %s %s' % (name, r)
         res.append(r)
@@ -217,7 +226,8 @@ def oracle_cases(rng, tier):
     def rates():
         # the solutions are time-translation invariant: a start time tmin != 0 must shift every curve alike
         tmin = rng.choice([0, 0, 2.5, -1.5, 3])
-        return dict(tau=rng.choice([0.3, 0.7, 1.5]), gamma=rng.choice([0.5, 1.0]), rho=rng.choice([0.05, 0.1, 0.25]), tmin=tmin, tmax=tmin + 5.0, tcount=11)
+        return dict(tau=rng.choice([0.3, 0.7, 1.5]), gamma=rng.choice([0.5, 1.0]), rho=rng.choice([0.05, 0.1, 0.25]), tmin=tmin, tmax=tmin + 5.0, tcount=11,
+                    nodelist_perm=rng.choice([0, 1, 3]))
     # (a) SIR hierarchy on random degree distributions, uniform rho
     for i in range(40 if thorough else 3):
         degs = rng.choice([(1, 2, 2, 3, 3, 4, 5), (1, 1, 2, 6), (2, 3, 4), (1, 3, 3, 5, 7), (0, 1, 2, 3)])
